@@ -81,11 +81,20 @@ application during the operation. -/
 def monitorOp (s : St) (inputs : List (Nat × Item)) (implD : List (Nat × Item)) : St × Option (String × String) :=
   -- spurious: delivered something that was not part of this operation
   let spurious := implD.find? fun d => !inputs.contains d
-  -- at most once: nothing delivered that had been delivered before, nothing twice now
-  let rec dupIn : List (Nat × Item) → List (Nat × Item) → Option (Nat × Item)
-    | [], _ => none
-    | d :: rest, seen => if seen.contains d then some d else dupIn rest (d :: seen)
-  let dup := dupIn implD s.delivered
+  -- at most once: walk the operation's inputs in order, matching the deliveries (a
+  -- subsequence of the inputs); a delivery of something already delivered is a
+  -- re-delivery, classified by whether a time 2^64−1 had been received before it
+  let rec scan : List (Nat × Item) → List (Nat × Item) → List (Nat × Item) → Bool → Option (String × (Nat × Item))
+    | _, [], _, _ => none
+    | [], d :: _, seen, wrap =>
+      if seen.contains d then some (if wrap then "redelivery-after-wrap" else "redelivered", d)
+      else some ("delivery-order", d)
+    | p :: rest, d :: ds, seen, wrap =>
+      if p == d then
+        if seen.contains d then some (if wrap then "redelivery-after-wrap" else "redelivered", d)
+        else scan rest ds (d :: seen) (wrap || p.1 == maxW)
+      else scan rest (d :: ds) seen (wrap || p.1 == maxW)
+  let dup := scan inputs implD s.delivered s.wrapSeen
   let wrapNow := s.wrapSeen || inputs.any (fun p => p.1 == maxW)
   -- fresh events inside the window must be delivered (judged only while no wrap has been seen)
   let rec fresh : List (Nat × Item) → Nat → List (Nat × Item) → Option (Nat × Item)
@@ -101,9 +110,9 @@ def monitorOp (s : St) (inputs : List (Nat × Item)) (implD : List (Nat × Item)
   let verdict : Option (String × String) :=
     match spurious, dup, missing with
     | some d, _, _ => some ("spurious-delivery", s!"delivered {d.1}/{d.2.1}/{d.2.2}, which this operation did not carry")
-    | _, some d, _ =>
-      some (if s.wrapSeen then "redelivery-after-wrap" else "redelivered",
-            s!"user event {d.1}/{d.2.1}/{d.2.2} reached the application a second time")
+    | _, some (key, d), _ =>
+      some (key, if key == "delivery-order" then s!"delivery {d.1}/{d.2.1}/{d.2.2} is out of order with respect to the operation's inputs"
+                 else s!"user event {d.1}/{d.2.1}/{d.2.2} reached the application a second time")
     | _, _, some p => some ("fresh-not-delivered",
         s!"first-time event {p.1}/{p.2.1}/{p.2.2} inside the window and not below the cut-off was not delivered")
     | _, _, _ => none
